@@ -20,7 +20,11 @@ callers of a collection: `RescuedGrouping.update_protein_groups` (`Op.updateResc
 `ConnectedProteinGraphs.get_connected_proteins` / `decouple_connected_proteins`
 (`Op.mergeComponents`), and the package's READERS of a collection (`Op.read`: result rows, competition,
 score collection, their chain in `get_protein_group_results`, precursor quantification — no-op steps that
-may only fail loudly); `RescuedGrouping.merge_with_rescued_protein_groups` is `Op.addUnseen` with the
+may only fail loudly), and the package's LOOKUP CALLERS (`Op.rows c rows`: `update_fragpipe_psm_file`, the
+`add_precursor_quants` / `update_precursor_quants_single` functions of quant/maxquant.py, quant/fragpipe.py,
+quant/sage.py, `collect_peptide_scores_per_protein`, `FragpipeProteinAnnotationsColumns.append_columns` —
+no-op steps whose answer `callerAnswer` says what happens to every external row);
+`RescuedGrouping.merge_with_rescued_protein_groups` is `Op.addUnseen` with the
 groups of a second live collection as argument, `ObservedPeptides.generate_protein_groups` is proved to be
 a history of this machine in `Props/C03.lean` (`generatePG`).
 -/
